@@ -321,6 +321,15 @@ v("C11", "b9-value-lowercased", "break", "binder/mapping.go", "\t\tdata[key] = a
 v("C11", "n2-split-range-loop", "benign", "binder/mapping.go", "\t\tfor i := 0; i < len(values); i++ {\n\t\t\tdata[key] = append(data[key], values[i])\n\t\t}", "\t\tfor _, item := range values {\n\t\t\tdata[key] = append(data[key], item)\n\t\t}", why="range loop instead of index loop")
 v("C11", "n3-guard-dropped", "benign", "binder/mapping.go", "if enableSplitting && strings.Contains(value, \",\") && equalFieldType(out, reflect.Slice, key) {", "if enableSplitting && equalFieldType(out, reflect.Slice, key) {", why="Split of a comma-free value returns the value itself")
 
+# ---------------------------------------------------------------- larger behaviour-preserving refactors (false-alarm probes)
+v("C13", "n2-critical-section-in-closure", "benign", "middleware/limiter/limiter_fixed.go",
+  "\t\t// Lock entry\n\t\tmux.Lock()\n\n\t\t// Get entry from pool and release when finished\n\t\te := manager.get(key)\n",
+  "\t\tvar e *item\n\t\tvar resetInSec uint64\n\t\tvar remaining int\n\t\tfunc() {\n\t\tmux.Lock()\n\t\tdefer mux.Unlock()\n\t\te = manager.get(key)\n",
+  why="critical section moved into an immediately invoked closure with a deferred unlock",
+  file2="middleware/limiter/limiter_fixed.go",
+  find2="\t\t// Calculate when it resets in seconds\n\t\tresetInSec := e.exp - ts\n\n\t\t// Set how many hits we have left\n\t\tremaining := maxRequests - e.currHits\n\n\t\t// Update storage\n\t\tmanager.set(key, e, cfg.Expiration)\n\n\t\t// Unlock entry\n\t\tmux.Unlock()\n\n\t\t// Check if hits exceed the max",
+  replace2="\t\tresetInSec = e.exp - ts\n\t\tremaining = maxRequests - e.currHits\n\t\tmanager.set(key, e, cfg.Expiration)\n\t\t}()\n\n\t\t// Check if hits exceed the max")
+
 os.makedirs('/verif/selftest', exist_ok=True)
 for prop, vs in V.items():
     p = f'/verif/selftest/{prop.lower()}.json'
